@@ -21,11 +21,21 @@ def orderer(*elements: Element) -> Iterator[ObjectMeta]:
 
     Assumes each object class in the tree has a unique name.
     """
-    object_classes: List[ObjectMeta] = get_object_classes(*elements)
+    object_classes: List[ObjectMeta] = []
+    pending: List[ObjectMeta] = get_object_classes(*elements)
+    while pending:
+        object_class = pending.pop(0)
+        if any(object_class is known for known in object_classes):
+            continue
+        object_classes.append(object_class)
+        # A subclass is declared in terms of its parent models.
+        pending.extend(get_object_classes(*_parent_models(object_class)))
     object_dependencies: Dict[str, List[str]] = {
         object_class.__name__: [
             dep.__name__
-            for dep in get_children(object_class)
+            for dep in chain(
+                _parent_models(object_class), get_children(object_class)
+            )
             if isinstance(dep, ObjectMeta)
         ]
         for object_class in object_classes
@@ -70,6 +80,16 @@ def orderer(*elements: Element) -> Iterator[ObjectMeta]:
     except StopIteration:
         assert not object_dependencies.values()
         return
+
+
+def _parent_models(object_class: ObjectMeta) -> List[ObjectMeta]:
+    """Get the model classes (other than ``Object``) a model inherits from."""
+    return [
+        base
+        for base in object_class.__bases__
+        if isinstance(base, ObjectMeta)
+        and any(isinstance(parent, ObjectMeta) for parent in base.__bases__)
+    ]
 
 
 def get_object_classes(*elements: Element) -> List[ObjectMeta]:
